@@ -607,6 +607,24 @@ pub fn generate(seed: u64, flavor: &str) -> RunSpec {
                     }
                 }
                 98 => Op::DebugFmt { slot },
+                99 => {
+                    let input = pick_input(&mut rng, fam, &fams);
+                    if rng.chance(50, 100) {
+                        Op::PanickingCall {
+                            slot,
+                            method: Method::IsMatch,
+                            input,
+                            repl: String::new(),
+                        }
+                    } else {
+                        Op::PanickingCall {
+                            slot,
+                            method: Method::ReplaceAll,
+                            input,
+                            repl: pick_repl(&mut rng, fam),
+                        }
+                    }
+                }
                 88..=90 => Op::Recompile { slot },
                 91..=95 => {
                     // another object: same key (twin), a flag variant, or another family
